@@ -135,6 +135,23 @@ fn alias_groups(vars: &VariableMap) -> Vec<String> {
         .collect()
 }
 
+/// name -> canonical binding, for the frame monitor (C12)
+fn bindings(vars: &VariableMap) -> std::collections::BTreeMap<String, String> {
+    vars.iter()
+        .map(|(k, v)| (k.clone(), format!("{}:{}", if v.constant { "c" } else { "v" }, value(&v.value))))
+        .collect()
+}
+
+fn stmt_target(s: &Statement) -> Option<String> {
+    match s {
+        Statement::DeleteVariable(n) => Some(n.lexeme.clone()),
+        Statement::DeleteFunctionSignature { name, .. } => Some(name.lexeme.clone()),
+        Statement::Assignment { identifier, .. } => Some(identifier.lexeme.clone()),
+        Statement::FunctionDeclaration { name, .. } => Some(name.lexeme.clone()),
+        _ => None,
+    }
+}
+
 fn result_canon(r: &Result<Value, common::expr::EvaluationError>) -> String {
     match r {
         Ok(v) => format!("val {}", value(v)),
@@ -172,6 +189,9 @@ fn process_text(id: &str, k: usize, text: &str, tab: u8, vars: &mut VariableMap<
             None => snapshot(vars),
         };
         let mut pre: Option<String> = None;
+        let target = stmt_target(&st_look);
+        let is_clear = matches!(st_look, Statement::Clear);
+        let names_before = bindings(vars);
         if let Statement::ExpressionStatement(e) = &st_look {
             // C11 monitor: evaluate on the live table, twice, around deep snapshots
             let r1 = e.evaluate(vars);
@@ -225,6 +245,18 @@ fn process_text(id: &str, k: usize, text: &str, tab: u8, vars: &mut VariableMap<
         let now = consts_full(vars);
         if now != fresh {
             out.line(id, &format!("MON builtins_changed {} S{}", p, j));
+        }
+        // C12 monitor (frame): a statement changes no binding other than its own target's (`clear` aside)
+        if !is_clear {
+            let names_after = bindings(vars);
+            let mut all: Vec<&String> = names_before.keys().chain(names_after.keys()).collect();
+            all.sort();
+            all.dedup();
+            for n in all {
+                if Some(n) != target.as_ref() && names_before.get(n) != names_after.get(n) {
+                    out.line(id, &format!("MON frame_violated {} S{} {}", p, j, hex(n)));
+                }
+            }
         }
         // C12 monitor: no two names share a function handle
         for g in alias_groups(vars) {
